@@ -66,6 +66,14 @@ fn alphabet() -> Vec<Op> {
         Op::Symlink(s("/e/l"), s("/d")),
         Op::SetCwd(s("/d")),
         Op::SetCwd(s("/e")),
+        // relative paths: resolved against the shared cwd, which other calls move (the resolution has to happen
+        // inside the same critical section as the effect)
+        Op::SetCwd(s("d")),
+        Op::SetCwd(s("..")),
+        Op::Mkfile(s("r")),
+        Op::MkdirP(s("x/y")),
+        Op::Remove(s("s")),
+        Op::ReadAll(s("f")),
         Op::AppendAll(s("/d/f"), vec![]),  // payload replaced by a unique token
         Op::AppendAll(s("/d/g"), vec![]),
         Op::AppendLine(s("/d/f"), s("")),  // payload replaced by a unique token
